@@ -93,6 +93,8 @@ def gen_knots(rng, k, style, dyadic):
     elif style == "fitlike":
         d = 1e-4
         t = [a - d] * (k + 1) + interior + [b + d] * (k + 1)
+    elif style == "overfull":  # more than k + 1 copies of an end knot (scipy gives no reference there)
+        t = [a] * (k + 1 + rng.randint(0, 1)) + interior + [b] * (k + 2)
     else:  # open: simple or partially repeated end knots
         left = sorted(a - span * rng.randint(0, 3) / 8 for _ in range(k + 1))
         right = sorted(b + span * rng.randint(0, 3) / 8 for _ in range(k + 1))
@@ -177,11 +179,12 @@ def check_table_1d(c, case, t, w, k, q, model_vals, model_d1=None, model_d2=None
     wpad = np.concatenate([np.array(w[:m], dtype=float), np.zeros(k + 1)])
     tt = np.array(t, dtype=float)
     clamped = is_clamped(t, k)
+    overfull = t.count(t[0]) > k + 1 or t.count(t[-1]) > k + 1
     lo, hi = (t[0], t[-1]) if clamped else (t[k], t[n - k - 1])
     nref = 0
     for x, iv in zip(q, impl):
         inside = (lo <= x <= hi) if clamped else (lo <= x < hi)
-        if not inside:
+        if not inside or overfull:
             continue
         ref = float(splev(x, (tt, wpad, k)))
         nref += 1
@@ -232,7 +235,7 @@ def check_table_1d(c, case, t, w, k, q, model_vals, model_d1=None, model_d2=None
                     c.disagree("second derivative formula", dict(case, x=x), model_d2[idx], h)
                     break
             # independent oracle for the derivatives (right-continuous at knots, like the code)
-            if lo <= x < hi and x not in t:
+            if lo <= x < hi and x not in t and not overfull:
                 r1 = float(splev(x, (tt, wpad, k), der=1))
                 if not fclose(r1, j, s1, rtol=1e-7):
                     c.fail("derivative of the 1-D spline differs from scipy splev(der=1)", dict(case, x=x),
@@ -246,7 +249,7 @@ def stream_eval1d(c, N):
     cases, lines = [], []
     for _ in range(N):
         k = rng.choice([0, 1, 1, 2, 2, 3, 3, 3, 3, 4])
-        style = rng.choice(["clamped", "clamped", "clamped", "fitlike", "open"])
+        style = rng.choice(["clamped", "clamped", "clamped", "clamped", "fitlike", "fitlike", "open", "open", "overfull"])
         dyadic = rng.random() < 0.5
         t = gen_knots(rng, k, style, dyadic)
         m = len(t) - k - 1
@@ -323,6 +326,9 @@ def check_table_2d(c, case, tx, ty, w, kx, ky, q, model_vals):
             c.disagree("BSpline2D value", case, [b[1] for b in bad[:5]], [(b[0], b[2]) for b in bad[:5]])
     tck = [np.array(tx, dtype=float), np.array(ty, dtype=float), np.array(w[: mx * my], dtype=float), kx, ky]
     nref = 0
+    if len(w) < mx * my:
+        c.fail("BSpline2D accepted a weight vector that is too short", case, len(w))
+        return
     for (x, y), iv in zip(q, impl):
         if not (tx[0] <= x <= tx[-1] and ty[0] <= y <= ty[-1]):
             continue
@@ -484,8 +490,9 @@ def stream_fit(c, N):
         mono = rng.choice([0, 0, 1, 1, -1, 5])
         curv = rng.choice([0, 0, 1, -1]) if k >= 2 else 0
         x, y, shape, noise = gen_fit_data(rng, mono, curv)
-        if curv != 0:
-            # keep the constrained problem well inside the feasible set: data with the requested sign
+        if curv != 0 and rng.random() < 0.5:
+            # half of the curvature cases: data that already has the requested sign (constraints
+            # mostly inactive); the other half keeps the raw data (constraints active)
             u = (x - x[0]) / (x[-1] - x[0])
             y = (abs(y).max() or 1.0) * (u * u if curv > 0 else -(u * u)) * (1 if mono >= 0 else -1) + 0.01 * y
             if mono < 0:
@@ -507,6 +514,8 @@ def stream_fit(c, N):
         c.sample(case, limit=6)
         if r[0] == "raise":
             c.hit("fit/solver-failed")
+            if "Spline fitting failed with status" not in r[2] or (mono == 0 and curv == 0):
+                c.fail("BSpline1D.fit raised %s" % r[1], case, r[2][:300])
             cases.append((case, None))
             continue
         t, w, kk = r[1]
@@ -607,6 +616,9 @@ def stream_fit(c, N):
                 if curv > 0 and min(e2) < eps - tol2 or curv < 0 and max(e2) > -eps + tol2:
                     c.fail("requested curvature violated at a test point (exact derivative)", case, e2)
         pos += 3
+    nfail = sum(1 for _, res in cases if res is None)
+    if cases and nfail * 3 > len(cases):
+        c.broken.append(("fit stream", "%d of %d fits were refused by the solver: the fit clauses are not exercised" % (nfail, len(cases))))
     c.programs += len(cases)
 
 
@@ -1139,12 +1151,8 @@ def probe_ini_deleted(c, P, fresh):
     stale = o["reused"] and not np.allclose(o["vals"], exp, rtol=0, atol=1e-5 * max(1.0, np.abs(exp).max()))
     what = ("cache computed with curvefit options is reused after curvefit_options.ini was deleted "
             "(the served table still carries the old monotonicity constraint)")
-    if any(k["id"] == "F29" for k in c.known):
-        c.known_probe("F29", stale, what)
-    else:
-        c.hit("probe-F29/" + ("reproduced" if stale else "not-reproduced"))
-        c.notes.append("candidate F29 (%s): %s on this tree; not listed in known_findings.jsonl, reported to the "
-                       "coordinator, excluded from the main history generator." % (what, "reproduced" if stale else "not reproduced"))
+    c.known_probe("F29", stale, what)
+    c.hit("probe-F29/" + ("reproduced" if stale else "not-reproduced"))
 
 
 # ---------------------------------------------------------------------------------------------
@@ -1171,17 +1179,19 @@ def run(c):
         "transcript is re-checked per call); tables with jumps (interior knots of multiplicity k+1) are outside "
         "the inverse-lookup clause",
         "file modification times are what os.path.getmtime reports and do not go backwards (`Chrono`)",
+        "curvefit_options.ini is not deleted while a cache exists (hypothesis of `served_is_current`; the deletion "
+        "case is known finding F29, reproduced by a dedicated probe and proved as `ini_deletion_serves_stale_witness`)",
         "spline values compared with 1e-9 relative tolerance (binary64 vs exact rationals), derivatives 1e-7, "
         "anything through IPOPT 1e-6",
         "least-squares quality and constraint satisfaction between test points are numerical: checked per "
         "instance against an independent QP / lstsq reference, not proved",
     ]
     c.prove()
-    stream_eval1d(c, c.n(40, 400))
-    stream_eval2d(c, c.n(16, 160))
-    stream_reverse(c, c.n(25, 250))
-    stream_fit(c, c.n(30, 300))
-    P, fresh = stream_cache(c, c.n(6, 60))
+    stream_eval1d(c, c.n(40, 1200))
+    stream_eval2d(c, c.n(16, 400))
+    stream_reverse(c, c.n(25, 800))
+    stream_fit(c, c.n(30, 1000))
+    P, fresh = stream_cache(c, c.n(6, 150))
     stream_mixin_2d(c, P)
     probe_ini_deleted(c, P, fresh)
     c.exhaustive = False
